@@ -259,6 +259,12 @@ class Ctx:
                 self.discharged = nthm
             else:
                 self.broke("axiom-audit", detail)
+            if not self.quick:
+                # thorough tier: the toolchain's independent re-checker replays the compiled proofs of this property's module
+                rc, out, err = run(["lake", "env", "leanchecker", "MdVerif.Properties." + self.pid], cwd=LEAN, timeout=1800)
+                self.notes.append("leanchecker MdVerif.Properties.%s: exit %d" % (self.pid, rc))
+                if rc != 0:
+                    self.broke("leanchecker", (out + err)[-2000:])
 
     def drift_for(self, *ext_names):
         """Report .pyx/.pxi drift (source edited but cannot be compiled here) for the given extensions."""
